@@ -255,6 +255,43 @@ def run_case(ctx, obj, cfg, crash_points=True):
                         break
                 finally:
                     sb2.cleanup()
+            # ---- the same operations failing with an I/O error (disk full) instead of the process dying: the error unwinds
+            # through whatever publishes the result, so the destination must still be complete (old or new)
+            for n in range(1, n_points + 1):
+                ev = res["events"][n - 1]
+                if ev[0] == "preclose":
+                    continue
+                sb2 = fscheck.Sandbox(other_fs=cfg["other_fs"])
+                try:
+                    arg2, dest2 = setup(sb2, data, cfg)
+                    b2 = sb2.snapshot()
+                    code2, res2 = fscheck.traced_call(sb2, cli_call(arg2, cfg["inplace"], inp=input_name(cfg)), sb2.root / "w", sb2.systmp, fail_at=n, capture_logs=True)
+                    a2 = sb2.snapshot()
+                    out["fault_evals"] = out.get("fault_evals", 0) + 1
+                    if code2 != 0 or res2 is None:
+                        continue
+                    old = b2["files"].get(dkey)
+                    cls = classify(a2["files"].get(dkey), old, reference, cfg["cur"])
+                    okay = {"new", "old"} if old is not None else {"new", "absent"}
+                    if dkey == w_in:
+                        okay = {"new", "old"}
+                    frep = dict(rep, fail_at=n, event=ev, outcome=res2.get("outcome"))
+                    if cls not in okay:
+                        out["fails"].append((f"fault-partial-destination: file operation {n} of {n_points} ({ev[0]}) failed with ENOSPC: "
+                                             f"afterwards the destination holds {cls}", frep))
+                        break
+                    if dkey != w_in and a2["files"].get(w_in) != data:
+                        out["fails"].append((f"fault-input-altered: operation {n} ({ev[0]}) failed with ENOSPC: the input changed", frep))
+                        break
+                    if ev[0] in ("open-w", "midwrite", "os.rename", "os.mkdir"):
+                        residue = {k for k in set(a2["files"]) | set(b2["files"]) if a2["files"].get(k) != b2["files"].get(k)} - {dkey}
+                        residue |= set(a2["dirs"]) - set(b2["dirs"])
+                        if residue:
+                            out["fails"].append((f"fault-residue: operation {n} ({ev[0]}) failed with ENOSPC: paths other than the destination "
+                                                 f"changed or remained: {sorted(residue)[:4]}", frep))
+                            break
+                finally:
+                    sb2.cleanup()
     finally:
         sb.cleanup()
     return out
@@ -295,7 +332,7 @@ def run(ctx):
         objects.append((f"gen{i}", v))
     base, extra = configs(ctx, cur, ctx.budget(24, 1500))
     ofails, mism = [], []
-    stats = dict(evaluations=0, crash_evals=0, configs=0, max_ordinals=0)
+    stats = dict(evaluations=0, crash_evals=0, fault_evals=0, configs=0, max_ordinals=0)
     hist = {}
     plan = []
     for c in base:
@@ -323,6 +360,7 @@ def run(ctx):
         stats["configs"] += 1
         stats["evaluations"] += r["evaluations"]
         stats["crash_evals"] += r["crash_evals"]
+        stats["fault_evals"] += r.get("fault_evals", 0)
         stats["max_ordinals"] = max(stats["max_ordinals"], r["ordinals"])
         key = f"proto{'<' if c['proto'] < cur else '>='}cur/{c['output']}/{'inplace' if c['inplace'] else 'copy'}/{'otherfs' if c['other_fs'] else 'samefs'}"
         hist[key] = hist.get(key, 0) + 1
@@ -341,7 +379,7 @@ def run(ctx):
              "then one killed run (os._exit before the operation; for writes also after the first half of the data) per crash point; "
              "model: op trace, outcome class and final file set of `fs.run update` for the same configuration",
         samples=[dict(config=k, runs=v) for k, v in sorted(hist.items())[:4]], config_histogram=hist,
-        complete_runs=stats["evaluations"], killed_runs=stats["crash_evals"], max_crash_points_per_run=stats["max_ordinals"],
+        complete_runs=stats["evaluations"], killed_runs=stats["crash_evals"], runs_with_injected_io_error=stats["fault_evals"], max_crash_points_per_run=stats["max_ordinals"],
         other_filesystem=fscheck.other_fs_dir(), correspondence_mismatches=len(mism), wall=round(time.time() - t0, 1))
     ctx.assumptions += [
         "paths with `.`/`..` components and symlinks are exercised on the implementation only (the model resolves paths literally)",
